@@ -12,7 +12,7 @@
    [sqrtf] is np.sqrt: any function with the defining property of the square root. *)
 From Coq Require Import Reals Qreals List Bool.
 From Verif Require Import Base.Num Base.Vec Base.VecR C08.Model C08.VecLemmas C08.Rules C08.Proofs
-  C08.ProxRules C08.Moreau C08.GradEq C08.Biconj C08.KL C08.ConjTables C08.Transfer C08.Group.
+  C08.ProxRules C08.Moreau C08.GradEq C08.Biconj C08.KL C08.ConjTables C08.Transfer C08.Group C08.ProxPoint.
 Import ListNotations.
 Local Open Scope R_scope.
 
@@ -167,3 +167,24 @@ Theorem group_pair_consistent :
   forall (m : nat) (cw : list R), cwpos cw -> cw <> [] -> pair_ok (length cw * m) (group_pair sqrtf cw m).
 Proof. exact group_pair_ok. Qed.
 Print Assumptions group_pair_consistent.
+
+(* PROX POINT  Fenchel-Young EQUALITY at the proximal point, for every tree over the leaves L1, unit inf-ball,
+   L2^2, Constant, IndicatorZero, Huber (PPok) and every proximal rule:
+       p = prox_{sigma f}(x)  ==>  f(p) + f.convex_conj((x - p)/sigma) = <p, (x - p)/sigma>,
+   i.e. (x - p)/sigma is a subgradient at p: p IS the minimiser of f + |. - x|^2/(2 sigma).  Unlike the Moreau
+   identity this is not blind to an error made consistently in prox_f and prox_{f*}; in particular it holds for the
+   REFLECTION f(s .) with s < 0 only because the model's proximal_arg_scaling is (1/s) prox_{sigma s^2 f}(s x)
+   (a sign-blind shortcut for s^2 = 1 breaks the correspondence of [prox] and the 'prox-point' probes). *)
+Theorem prox_point_fenchel_equality :
+  forall (sqrtf : R -> R), (forall a, 0 <= a -> 0 <= sqrtf a /\ sqrtf a * sqrtf a = a) ->
+  forall (e e' : fxR) (n : nat) (w x : list R) (sigma : R) (p : list R) (vp vq : extR),
+  wf n e -> PPok e -> wpos w -> length w = n -> length x = n -> 0 < sigma ->
+  prox sqrtf e w sigma x = Ok p -> value sqrtf 0 e w p = Ok vp ->
+  cconj w e = Ok e' -> value sqrtf 0 e' w (vscal (1 / sigma) (vsub x p)) = Ok vq ->
+  eadd vp vq = EFin (wdot w p (vscal (1 / sigma) (vsub x p))).
+Proof. exact prox_point_tree. Qed.
+Print Assumptions prox_point_fenchel_equality.
+Example PP_example :
+  let e : fxR := FRight (-1) (FTransl (FLp P1) [1; -2]) in
+  wf 2 e /\ PPok e /\ (exists p, prox sqrt e [1; 1] (1 / 2) [3; 0] = Ok p).
+Proof. exact PP_example_proof. Qed.
